@@ -68,6 +68,11 @@ def gen_cases(rng, tier):
     fam = ["AB.C", "A.BC", "abc", "x1.bas", "X.1BA", "x1b.as", "ABCDEFGH.IJ", "ABCDEFG.HIJ", "a.b", "ab"]
     cases.append({"sources": [{"arg": a, "content": {"pat": "%02x" % (65 + k), "len": 10 + 254 * (k % 3)}} for k, a in enumerate(fam)], "verbose": False, "archive": "t.k7"})
     cases.append({"sources": [{"arg": a, "content": {"rand": k, "len": 5 * k}} for k, a in enumerate(reversed(fam))], "verbose": True, "archive": "o+/t.k7"})
+    # contents full of line ends, Ctrl-Z and byte order marks under every kind: content is never rewritten on its way to the tape
+    eol = "31302050520d0a3230200d0a0d0a1a"
+    cases.append({"sources": [{"arg": a, "content": {"pat": pz, "len": 200 + 17 * k}} for k, (a, pz) in enumerate([("list.bas,a", eol), ("prog.bas", eol), ("data.csv", eol), ("bin.bin", eol), ("noext", eol),
+                                                                                                             ("bom.bas,a", "efbbbf" + eol), ("LF.BAS,A", "0a0d0a0a"), ("cr.csv", "0d0d0a")])],
+                  "verbose": False, "archive": "t.k7"})
     return cases, {"random": n, "tape filled to within 0..130 bytes of its capacity": nf, "fixed": 4}
 
 
@@ -144,13 +149,19 @@ def flow(case, ctx, cd):
         rl = run_tool(ctx, "tar", ["-t"] + vflag + [arch], cd)
         obs["list"] = rl
         obs["m_list"] = model_outcome(ctx.model.call("tar_list", v, raw))
+        obs["m_extract"] = model_outcome(ctx.model.call("tar_extract", v, [], text_points(arch), raw))
+        # earlier results may already lie where the members go (longer, shorter, as long): extraction replaces them entirely
+        for n_, (p_, c_) in enumerate(obs["m_extract"]["effects"]):
+            q = os.path.normpath(os.path.join(cd.cwd, p_))
+            if n_ % 2 == 0 and not os.path.lexists(q) and os.path.isdir(os.path.dirname(q)) and q.startswith(cd.root):
+                with open(q, "wb") as f_:
+                    f_.write(b"earlier result " * (len(c_) // 10 + 50) if n_ % 4 == 0 else b"e")
         before = cd.snapshot()
         rx = run_tool(ctx, "tar", ["-x"] + vflag + [arch], cd)
         obs["extract"] = rx
         after = cd.snapshot()
         obs["changed"] = {k: after[k] for k in after if before.get(k) != after[k]}
         obs["removed"] = [k for k in before if k not in after]
-        obs["m_extract"] = model_outcome(ctx.model.call("tar_extract", v, [], text_points(arch), raw))
     return obs
 
 
